@@ -18,7 +18,9 @@ def srcLocal (x : Proc) : Src → Bool
 
 /-- the select the process is parked at has a source that is ready in its local state -/
 def LocalReady (prog : Prog) (x : Proc) : Prop :=
-  ∃ srcs, currentSelect prog x = some srcs ∧ ∃ src ∈ srcs, srcLocal x src = true
+  (∃ srcs, currentSelect prog x = some srcs ∧ ∃ src ∈ srcs, srcLocal x src = true) ∧
+  -- variant `selectWaits`: … and the select is allowed to evaluate: every target has been answered
+  ¬ (Cfg.selectWaits = true ∧ x.unanswered.isEmpty = false)
 
 def mentionsC (p : Pid) : Cmd → Bool
   | .deliver t _ => decide (t = p)
@@ -573,14 +575,36 @@ theorem SelSub.notifyResult (w : WorkerSt) (a t : Pid) (r : Res) : SelSub w (w.n
       · exact SelSub.refl w
     · exact SelSub.refl w
 
-theorem SelSub.applyResults (a : Pid) : ∀ (rs : Results) (w : WorkerSt), SelSub w (applyResults w a rs)
-  | [], w => SelSub.refl w
+/-- … except `a`, which may have been modified while still parked (it is woken afterwards) -/
+def SelSubX (a : Pid) (w w' : WorkerSt) : Prop :=
+  ∀ q, q ∈ w'.selecting → q ∈ w.selecting ∧ (q ≠ a → w'.procs q = w.procs q)
+
+theorem SelSubX.refl (a : Pid) (w : WorkerSt) : SelSubX a w w := fun _ h => ⟨h, fun _ => rfl⟩
+theorem SelSubX.trans {a : Pid} {x y z : WorkerSt} (h1 : SelSubX a x y) (h2 : SelSubX a y z) : SelSubX a x z := fun q hq =>
+  ⟨(h1 q (h2 q hq).1).1, fun hne => ((h2 q hq).2 hne).trans ((h1 q (h2 q hq).1).2 hne)⟩
+theorem SelSub.toX {w w' : WorkerSt} (h : SelSub w w') (a : Pid) : SelSubX a w w' := fun q hq => ⟨(h q hq).1, fun _ => (h q hq).2⟩
+
+theorem SelSubX.notifyPending (w : WorkerSt) (a t : Pid) : SelSubX a w (w.notifyPending a t) := by
+  intro q hq
+  unfold WorkerSt.notifyPending at hq ⊢
+  rw [modProc_selecting] at hq
+  exact ⟨hq, fun hne => modProc_procs_other _ _ _ _ hne⟩
+
+theorem SelSubX.applyResults (a : Pid) : ∀ (rs : Results) (w : WorkerSt), SelSubX a w (applyResults w a rs)
+  | [], w => SelSubX.refl a w
   | (t, some r) :: rest, w => by
     unfold QM.Sys.applyResults
-    exact (SelSub.notifyResult w a t r).trans (SelSub.applyResults a rest _)
-  | (_, none) :: rest, w => by
+    exact ((SelSub.notifyResult w a t r).toX a).trans (SelSubX.applyResults a rest _)
+  | (t, none) :: rest, w => by
     unfold QM.Sys.applyResults
-    exact SelSub.applyResults a rest w
+    exact (SelSubX.notifyPending w a t).trans (SelSubX.applyResults a rest _)
+
+/-- apply an answer, then wake the awaiter: nobody still parked is affected -/
+theorem SelSub.applyResultsWake (a : Pid) (rs : Results) (w : WorkerSt) : SelSub w ((applyResults w a rs).wakeSelecting a) := by
+  intro q hq
+  obtain ⟨h1, h2⟩ := mem_wakeSelecting.mp hq
+  obtain ⟨h3, h4⟩ := SelSubX.applyResults a rs w q h1
+  exact ⟨h3, by rw [wakeSelecting_procs]; exact h4 h2⟩
 
 theorem SelSub.foldl {α : Type} (f : WorkerSt → α → WorkerSt) (hf : ∀ w a, SelSub w (f w a)) :
     ∀ (l : List α) (w : WorkerSt), SelSub w (l.foldl f w)
@@ -872,7 +896,7 @@ theorem WInv.cmdStep1 {s : Sys} (h : WInv s) (i : Wid) : WInv (cmdStep1With Rule
       simp only [handleCmdWith, Rules.current, Bool.false_and, Bool.false_eq_true, if_false]
       refine h.core.afterCmd h.si.r h.si.sched hq e_cmdQ e_prog e_pend (hev0 _) (hwk0 _) ?_ ?_ (fun a ts heq => by cases heq)
       · simp only [setWk_wk, upd_same]; rw [e_wk]
-        exact (SelSub.applyResults a rs _).trans (SelSub.wakeSelecting _ a)
+        exact SelSub.applyResultsWake a rs _
       · intro q hm _
         simp only [mentionsC, decide_eq_true_eq] at hm; subst hm
         simp only [setWk_wk, upd_same]
@@ -1035,20 +1059,27 @@ theorem slice_blocked (prog : Prog) (now : Nat) (self : Pid) : ∀ (fuel : Nat) 
           refine ⟨(fun h => by cases h), fun ts h => ?_⟩
           cases h
           intro hnil; rw [hnil] at hne; simp at hne
-      · dsimp only
-        split
-        · exact slice_blocked prog now self fuel _
-        · exact ⟨(fun h => by cases h), (fun ts h => by cases h)⟩
-        · rename_i hno
+      · split
+        · -- variant `selectWaits`: answers pending — parked with the gate closed
+          rename_i hgate
           refine ⟨fun _ => ?_, (fun ts h => by cases h)⟩
-          rintro ⟨srcs', hcs, src, hsrc, hloc⟩
-          have : currentSelect prog { p with selStart := some (p.selStart.getD now) } = some srcs := by
-            unfold currentSelect Proc.script
-            unfold Proc.script at hact
-            simp only [hact]
-          rw [this] at hcs; cases hcs
-          have := firstReady_no hno src hsrc
-          rw [this] at hloc; cases hloc
+          rintro ⟨_, hopen⟩
+          apply hopen
+          simpa using hgate
+        · dsimp only
+          split
+          · exact slice_blocked prog now self fuel _
+          · exact ⟨(fun h => by cases h), (fun ts h => by cases h)⟩
+          · rename_i hno
+            refine ⟨fun _ => ?_, (fun ts h => by cases h)⟩
+            rintro ⟨⟨srcs', hcs, src, hsrc, hloc⟩, _⟩
+            have : currentSelect prog { p with selStart := some (p.selStart.getD now) } = some srcs := by
+              unfold currentSelect Proc.script
+              unfold Proc.script at hact
+              simp only [hact]
+            rw [this] at hcs; cases hcs
+            have := firstReady_no hno src hsrc
+            rw [this] at hloc; cases hloc
 
 /-- `finish`: whoever is still parked afterwards was parked before and is unchanged -/
 theorem finish_selsub {w : WorkerSt} {cur : Pid} (x : Proc) (ordQ : List Pid) {q : Pid}
